@@ -9,8 +9,12 @@ import numpy as np
 
 from common import R, Ro, fl
 
-LEAN_MODULES = ["PyomaVerif.Props.C16", "PyomaVerif.Mutants.C16"]
+from common import wiring_pre_build as pre_build  # noqa: E402,F401
+
+LEAN_MODULES = ["PyomaVerif.Props.C16", "PyomaVerif.Mutants.C16", "PyomaVerif.Props.WiringMpe"]
 THEOREMS = [
+    # call-site wiring of the class layer, regenerated from /repo on every run (translate_wiring.py)
+    "PV.WiringMpe.C16_handover_wiring",
     "PV.C16.C16_refine",
     "PV.C16.C16_handover",
     "PV.C16.C16_fdd",
